@@ -49,6 +49,25 @@ def run(ctx):
             ok = any(n.endswith("::saturating_sub") or n.endswith("::checked_sub") for n in names) and not any(n.startswith("raw:") for n in names)
             ctx.ob("R1", "%s|fetch_update(non-wrapping sub)" % b.short, ok, b.where(t["line"]),
                    "update closure uses %s" % names)
+            # the charge must always land: fetch_update leaves the value untouched when the closure returns None, and the
+            # caller discards the result, so every return of the closure has to be Some(..)
+            always = True
+            rets = []
+            for c in cl:
+                if c is None:
+                    continue
+                for (ci, cj, cp, crv, cline) in c.assigns():
+                    if cp == [0]:
+                        some = crv[0] == "agg" and crv[1].get("k") == "adt" and crv[1]["adt"] == "core::option::Option" and crv[1]["variant"] == "Some"
+                        rets.append("Some(..)" if some else crv[0])
+                        always = always and some
+                for ci, ct in c.calls():
+                    if ct["dest"] == [0]:
+                        rets.append("call " + callee(ct).split("::")[-1])
+                        always = False
+            ctx.ob("R1", "%s|fetch_update always commits the charge" % b.short, always and bool(rets), b.where(t["line"]),
+                   "values returned by the update closure: %s — returning None (e.g. checked_sub on overshoot) aborts the update, so a "
+                   "datagram larger than the remaining credit is sent without being charged and the credit never reaches zero" % rets)
         elif m in ("fetch_sub", "swap", "store", "fetch_and", "fetch_or", "fetch_xor", "fetch_nand", "fetch_max", "fetch_min",
                    "compare_exchange", "compare_exchange_weak"):
             ctx.ob("R1", "%s|%s" % (b.short, m), False, b.where(t["line"]),
